@@ -508,6 +508,35 @@ def raise_value_error(ev, msg, node, fr):
     raise Raised("ValueError", node, msg)
 
 
+def nd_to_indexed(ev, x: NdArr):
+    """An explicit array of scalar terms as an *indexed* array term: one fresh index symbol per axis longer than 1 and
+    the element given by nested selections Sel(i, v0, v1, ...) on those symbols.  Lets an explicit (per-element) array meet
+    a symbolic-length array under numpy broadcasting without losing which element goes where."""
+    if not all(isinstance(e, Num) and not e.shape for e in x.items) or len(x.items) > 4096:
+        return None
+    syms = [ev.new_index("e", sp.Integer(k)) if k > 1 else None for k in x.shape]
+
+    def build(axis, offset, stride):
+        if axis == len(x.shape):
+            return x.items[offset].expr
+        k = x.shape[axis]
+        sub = stride // k
+        if k == 1:
+            return build(axis + 1, offset, sub)
+        parts = [build(axis + 1, offset + j * sub, sub) for j in range(k)]
+        if all(p == parts[0] for p in parts):
+            return parts[0]
+        return F["Sel"](syms[axis], *parts)
+    total = 1
+    for k in x.shape:
+        total *= k
+    expr = build(0, 0, total)
+    kinds = {e.kind for e in x.items}
+    units = {e.unit for e in x.items}
+    return Num(expr, kind="array" if kinds <= {"number", "array"} else kinds.pop(), shape=tuple(sp.Integer(k) for k in x.shape), axes=tuple(syms),
+               unit=units.pop() if len(units) == 1 else None, dtype=getattr(x, "dtype", None), isfloat=any(e.isfloat for e in x.items))
+
+
 def nd_binop(ev, op, a, b, node, fr):
     if isinstance(a, NdArr) and isinstance(b, NdArr):
         if a.shape == b.shape:
@@ -519,15 +548,23 @@ def nd_binop(ev, op, a, b, node, fr):
         mb = nd_materialize(b)
         if mb is not None:
             return nd_binop(ev, op, a, mb, node, fr)
-        if isinstance(b, Num) and b.shape and any((not s.is_number) or s != 1 for s in b.shape) and b.tag == "data":
-            return Num(F["Opq"](sp.Symbol("bcast_nd"), b.expr), kind="array", shape=b.shape, backend=b.backend, dtype=b.dtype, tag="data")
+        if isinstance(b, Num) and b.shape and any((not s.is_number) or s != 1 for s in b.shape):
+            ia = nd_to_indexed(ev, a)
+            if ia is not None:
+                return binop(ev, op, ia, b, node, fr)
+            if b.tag == "data":
+                return Num(F["Opq"](sp.Symbol("bcast_nd"), b.expr), kind="array", shape=b.shape, backend=b.backend, dtype=b.dtype, tag="data")
         out = a.map(lambda x: binop(ev, op, x, b, node, fr))
         return out
     ma = nd_materialize(a)
     if ma is not None:
         return nd_binop(ev, op, ma, b, node, fr)
-    if isinstance(a, Num) and a.tag == "data":
-        return Num(F["Opq"](sp.Symbol("bcast_nd"), a.expr), kind="array", shape=a.shape, backend=a.backend, dtype=a.dtype, tag="data")
+    if isinstance(a, Num) and a.shape and any((not s.is_number) or s != 1 for s in a.shape):
+        ib = nd_to_indexed(ev, b)
+        if ib is not None:
+            return binop(ev, op, a, ib, node, fr)
+        if a.tag == "data":
+            return Num(F["Opq"](sp.Symbol("bcast_nd"), a.expr), kind="array", shape=a.shape, backend=a.backend, dtype=a.dtype, tag="data")
     return b.map(lambda y: binop(ev, op, a, y, node, fr))
 
 
@@ -1557,6 +1594,49 @@ def _np_unary(fn, real=False):
     return h
 
 
+def nd_pairs(ev, a, b, node, fr):
+    """Broadcast two explicit arrays (or an explicit array and a scalar / enumerable Num array): (shape, [(x, y)])."""
+    import itertools
+    if not isinstance(a, NdArr):
+        a = nd_materialize(a) or NdArr((), [a])
+    if not isinstance(b, NdArr):
+        b = nd_materialize(b) or NdArr((), [b])
+    nd = max(a.ndim, b.ndim)
+    sa = (1,) * (nd - a.ndim) + a.shape
+    sb = (1,) * (nd - b.ndim) + b.shape
+    shape = []
+    for x, y in zip(sa, sb):
+        if x == y or y == 1:
+            shape.append(x)
+        elif x == 1:
+            shape.append(y)
+        else:
+            ev.trace.append(("broadcast-mismatch", sa, sb, node))
+            raise_value_error(ev, f"operands could not be broadcast together with shapes {a.shape} {b.shape}", node, fr)
+
+    def strides(sh):
+        st, acc = [], 1
+        for s_ in reversed(sh):
+            st.insert(0, 0 if s_ == 1 else acc)
+            acc *= s_
+        return st
+    sta, stb = strides(sa), strides(sb)
+    pairs = []
+    for combo in itertools.product(*[range(s_) for s_ in shape]):
+        pairs.append((a.items[sum(c * t for c, t in zip(combo, sta))], b.items[sum(c * t for c, t in zip(combo, stb))]))
+    return tuple(shape), pairs
+
+
+def _elementwise2(h2):
+    """A two-argument numpy function applied elementwise when an operand is an explicit array."""
+    def h(ev, args, kwargs, fr, node):
+        if len(args) == 2 and (isinstance(args[0], NdArr) or isinstance(args[1], NdArr)):
+            shape, pairs = nd_pairs(ev, args[0], args[1], node, fr)
+            return NdArr(shape, [h2(ev, [x, y], kwargs, fr, node) for x, y in pairs])
+        return h2(ev, args, kwargs, fr, node)
+    return h
+
+
 def _minmax(fn):
     def h(ev, args, kwargs, fr, node):
         if (len(args) >= 2 and isinstance(args[0], Num) and ("keepdims" in kwargs or len(args) == 2 and isinstance(args[1], NoneV))) \
@@ -1971,6 +2051,8 @@ def h_fftfreq(ev, args, kwargs, fr, node, backend=None):
     kb = sp.Symbol("kbin", integer=True)
     ev.index_len[kb] = n
     kind = "quantity" if d.kind == "quantity" else "array"
+    if n == 1:
+        return Num(0 / d.expr, kind=kind, shape=(sp.Integer(1),), axes=(None,), backend=backend)    # the single bin is DC
     return Num(kb / (n * d.expr), kind=kind, shape=(n,), axes=(kb,), backend=backend)
 
 
@@ -2189,7 +2271,11 @@ def _fft_like(fname):
                 shape[k] = n.expr if extra else 2 * (shape[k] - 1)
             elif extra:
                 shape[k] = n.expr
-        return Num(F[fname](x.expr, ax, *extra), kind=x.kind if x.kind != "number" else "array", shape=shape,
+        axes_out = None
+        if x.axes is not None and shape is not None and isinstance(axis, Num) and axis.expr.is_number and len(x.axes) == len(shape):
+            # the index of the transformed axis is summed over; element indices of the other axes stay aligned
+            axes_out = [None if i == int(axis.expr) % len(shape) else a_ for i, a_ in enumerate(x.axes)]
+        return Num(F[fname](x.expr, ax, *extra), kind=x.kind if x.kind != "number" else "array", shape=shape, axes=axes_out,
                    backend=x.backend, tag=x.tag, dtype=x.dtype)
     return h
 
@@ -2386,6 +2472,22 @@ def h_bool_(ev, args, kwargs, fr, node):
 
 def h_where(ev, args, kwargs, fr, node):
     c, a, b = args
+    if isinstance(c, NdArr):
+        # explicit boolean mask over a data array: keep the mask in the trace so that rules can read which cells
+        # take which side; the value term names the mask
+        def zero(v):
+            return (isinstance(v, Num) and v.expr == 0 and not v.shape) or (isinstance(v, BoolV) and not v.b)
+        data = a if (isinstance(a, Num) and a.shape) else b if (isinstance(b, Num) and b.shape) else None
+        other = b if data is a else a
+        if data is not None and isinstance(other, (Num, BoolV)):
+            k = sum(1 for t in ev.trace if t[0] == "where-mask")
+            sym = sp.Symbol(f"mask{k}")
+            oe = other.expr if isinstance(other, Num) else sp.Integer(int(other.b))
+            expr = F["Where"](sym, data.expr, oe) if data is a else F["Where"](sym, oe, data.expr)
+            out = data.like(expr, unit=data.unit)
+            ev.trace.append(("where-mask", sym, c, "true" if data is a else "false", data, other))
+            return out
+        ev.unsupported("np.where with an explicit mask over values that are not (data array, scalar)", node, fr)
     ce = c.expr
     if not is_bool_expr(ce):
         ce = sp.Ne(ce, 0)
@@ -2682,7 +2784,7 @@ EXT = {
     "numpy.cos": _np_unary(sp.cos), "numpy.square": _np_unary(lambda x: x ** 2), "numpy.sign": _np_unary(sp.sign),
     "numpy.round": h_round, "numpy.rint": h_round, "numpy.around": h_round,
     "numpy.min": _minmax(sp.Min), "numpy.max": _minmax(sp.Max), "numpy.amin": _minmax(sp.Min),
-    "numpy.amax": _minmax(sp.Max), "numpy.minimum": _minmax(sp.Min), "numpy.maximum": _minmax(sp.Max),
+    "numpy.amax": _minmax(sp.Max), "numpy.minimum": _elementwise2(_minmax(sp.Min)), "numpy.maximum": _elementwise2(_minmax(sp.Max)),
     "numpy.arange": h_arange, "dask.array.arange": lambda ev, a, k, fr, n: h_arange(ev, a, k, fr, n, backend="dask"),
     "numpy.fft.fftfreq": h_fftfreq, "numpy.fft.rfftfreq": h_rfftfreq,
     "dask.array.fft.rfftfreq": lambda ev, a, k, fr, n: h_rfftfreq(ev, a, k, fr, n, backend="dask"),
